@@ -13,6 +13,7 @@ import AquaDrv.C18Ops
 import AquaDrv.C16Ops
 import AquaDrv.C10Ops
 import AquaDrv.C28Ops
+import AquaDrv.C14Ops
 /-! Line-protocol driver of the model: one JSON request per line on stdin, one JSON answer per line. -/
 open Lean Aqua
 
@@ -38,6 +39,8 @@ def dispatch (j : Json) : Json :=
   | "ref" => opRef j
   | "wf" => opWf j
   | "beautify" => opBeautify j
+  | "verify_data" => opVerifyData j
+  | "salted_data" => opSaltedData j
   | "ping" => Json.mkObj [("pong", true)]
   | op => Json.mkObj [("error", s!"unknown op {op}")]
 
